@@ -273,6 +273,13 @@ endpats: Final = {
     '"""': r'(?:[^"\\]|\\.|"(?!""))*"""',
 }
 StartLBrace = r".*?(?=\{(?!\{)){"
+# literal part of an f-string up to (not including) a single "{" or the closing quote; "{{" is literal
+fstring_bodies: Final = {
+    "'": r"(?:[^'\\{]|\\.|\{\{)*",
+    '"': r'(?:[^"\\{]|\\.|\{\{)*',
+    "'''": r"(?:[^'\\{]|\\.|\{\{|'(?!''))*",
+    '"""': r'(?:[^"\\{]|\\.|\{\{|"(?!""))*',
+}
 EndRBrace = r".*?(?=\}(?!\}))}"
 
 tabsize = 8
@@ -491,7 +498,8 @@ def next_psuedo_matches(state: TokenizerState) -> TokenInfo | None:
         quote = match.group("Quote") or '"'
         if "f" in token.lower():
             token_type = Token.FSTRING_START
-            pattern = choice(LBrace=StartLBrace, End=endpats[quote])
+            body = fstring_bodies[quote]  # the search for "{" must not run past the closing quote
+            pattern = choice(LBrace=body + r"\{(?!\{)", End=body + quote)
             state.add_prog(end, end, pattern=pattern, quote=quote, mode=ModeMiddle(state.parenlev))
         else:
             pattern = endpats[quote]
